@@ -342,6 +342,16 @@ Definition event (drv size : N) (a : ast) (e : ev3) (rest : list ev3) : verdict 
     | 102%N =>
       if mem id (handle_ids s)
       then VNext (mk_ast (a_st a) (a_init a) (a_exp44 a) (Some id) (a_nsel a)) 0 else VReject
+    | 54%N =>
+      (* the completion being reaped carries this buffer id, whatever its result:
+         the kernel consumed it, so the model must have posted it with this id *)
+      match cq s with
+      | c :: _ => match c_id c with
+                  | Some i => if Nat.eqb i id then VNext a 0 else VReject
+                  | None => VReject
+                  end
+      | [] => VReject
+      end
     | 109%N =>
       (* the consumer awaited next() on a slot: outcome x (0 = nothing within the
          budget, 1 = a buffer, 2 = an error item, 3 = end), y = error code
